@@ -284,6 +284,21 @@ def b_goodman(ctx):
                 ctx.fail(f'C12:closed-form:{kind}', f'{kind} {par}: cycle a={a}, m={m} -> R={Rg}: {got}, iso-damage walk gives {want}',
                          {'kind': kind, 'params': par, 'a': a, 'm': m, 'R_goal': Rg})
                 continue
+            # number types: the amplitudes given as an integer array (the means stay floats), the mean given as one scalar for all cycles - same values
+            # (added after seed C12-g cast the mean to the dtype of the amplitude array in the plain functions)
+            if float(a).is_integer():
+                for tname, a_arr, m_arg in (('int64 amplitudes', np.array([int(a)]), np.array([m])), ('int32 amplitudes', np.array([int(a)], dtype=np.int32), np.array([m])),
+                                            ('scalar mean', np.array([int(a), int(a)]), float(m))):
+                    try:
+                        if kind == 'goodman':
+                            got_t = float(np.asarray(MST.fkm_goodman(a_arr, m_arg, par[0], par[1], Rg))[0])
+                        else:
+                            got_t = float(np.asarray(MST.five_segment_correction(a_arr, m_arg, par['M0'], par['M1'], par['M2'], par['M3'], par['M4'], par['R12'], par['R23'], Rg))[0])
+                    except Exception as e:   # noqa
+                        ctx.fail(f'C12:number-type:{kind}:raises:{type(e).__name__}', f'{kind} with {tname} raises {type(e).__name__}: {str(e)[:120]}', {'kind': kind, 'a': a, 'm': m, 'R_goal': Rg})
+                        continue
+                    if not (got_t == got or abs(got_t - got) <= 1e-12 * max(1, abs(got))):
+                        ctx.fail(f'C12:number-type:{kind}', f'{kind} {par}: cycle a={int(a)} ({tname}), m={m} -> R={Rg}: {got_t}, with float amplitudes {got}', {'kind': kind, 'params': par, 'a': a, 'm': m, 'R_goal': Rg})
             # the transformation is homogeneous of degree 1: the same cycle in units a billion times larger (numbers of the order 1e-9) gives the same result in
             # those units (added after seed C12-f snapped R to -inf whenever the upper load is np.isclose to 0)
             if kind == 'goodman':
